@@ -865,11 +865,17 @@ TPM_RESULT TPM_NVIndexEntries_GetVolatile(TPM_NV_DATA_ST **tpm_nv_data_st, /* fr
     if (rc == 0) {
 	rc = TPM_NVIndexEntries_GetUsedCount(&usedCount, tpm_nv_index_entries);
     }
-    /* allocate memory for the array, nvIndexCount TPM_NV_DATA_SENSITIVE structures */
-    if ((rc == 0) && (usedCount > 0)) {
+    /* allocate memory for the array, usedCount TPM_NV_DATA_ST structures plus a terminating entry
+       whose nvIndex is TPM_NV_INDEX_LOCK (never the index of a used slot) */
+    if (rc == 0) {
 	printf("  TPM_NVIndexEntries_GetVolatile: Aloocating for %u used slots\n", usedCount);
 	rc = TPM_Malloc((unsigned char **)tpm_nv_data_st,
-			sizeof(TPM_NV_DATA_ST) * usedCount);
+			sizeof(TPM_NV_DATA_ST) * (usedCount + 1));
+    }
+    if (rc == 0) {
+	(*tpm_nv_data_st)[usedCount].nvIndex = TPM_NV_INDEX_LOCK;
+	(*tpm_nv_data_st)[usedCount].bReadSTClear = FALSE;
+	(*tpm_nv_data_st)[usedCount].bWriteSTClear = FALSE;
     }
     /* save entries into the array */
     for (entryIndex = 0 , usedIndex = 0 ;
@@ -910,6 +916,7 @@ TPM_RESULT TPM_NVIndexEntries_SetVolatile(TPM_NV_DATA_ST *tpm_nv_data_st,
     TPM_RESULT 	rc = 0;
     uint32_t 	usedCount;
     uint32_t	i;
+    uint32_t	j;
 
     printf(" TPM_NVIndexEntries_SetVolatile: %u slots\n", tpm_nv_index_entries->nvIndexCount);
     /* Get the number of used slots.  This should be equal to the total number of slots. */
@@ -924,36 +931,31 @@ TPM_RESULT TPM_NVIndexEntries_SetVolatile(TPM_NV_DATA_ST *tpm_nv_data_st,
 	    rc = TPM_FAIL;
 	}
     }    
-    /* if the used count is non-zero, the volatile array should not be NULL */
+    /* the volatile array always has at least its terminating entry */
     if (rc == 0) {
-	if ((usedCount > 0) && (tpm_nv_data_st == NULL)) {
-	    printf("TPM_NVIndexEntries_SetVolatile: Error (fatal), "
-		   "usedCount %u unconsistant with volatile array NULL\n", usedCount);
+	if (tpm_nv_data_st == NULL) {
+	    printf("TPM_NVIndexEntries_SetVolatile: Error (fatal), volatile array NULL\n");
 	    rc = TPM_FAIL;
 	}
     }
-    /* copy entries into the array */
+    /* restore the flags of each reloaded entry from the saved entry with the same nvIndex.  The
+       ordinal being rolled back may have deleted or added an index before it failed, so the saved
+       array need not list the same indexes as the reloaded NV file.  An index without a saved entry
+       keeps the flags it was loaded with. */
     for (i = 0 ; (rc == 0) && (i < tpm_nv_index_entries->nvIndexCount) ; i++) {
 	printf("  TPM_NVIndexEntries_SetVolatile: slot %u index %08x\n",
 	       i, tpm_nv_index_entries->tpm_nvindex_entry[i].pubInfo.nvIndex);
-	/* sanity check on a mismatch of entries between the save and restore */
-	if (tpm_nv_index_entries->tpm_nvindex_entry[i].pubInfo.nvIndex !=
-	    tpm_nv_data_st[i].nvIndex) {
-
-	    printf("TPM_NVIndexEntries_SetVolatile: Error (fatal), "
-		   "mismatch NV entry %08x, saved %08x\n",
-		   tpm_nv_index_entries->tpm_nvindex_entry[i].pubInfo.nvIndex,
-		   tpm_nv_data_st[i].nvIndex);
-	    rc = TPM_FAIL;
-	}
-	/* restore entries from the array */
-	else {
-	    printf("  TPM_NVIndexEntries_SetVolatile: bReadSTClear %u bWriteSTClear %u\n",
-		   tpm_nv_data_st[i].bReadSTClear, tpm_nv_data_st[i].bWriteSTClear);
-	    tpm_nv_index_entries->tpm_nvindex_entry[i].pubInfo.bReadSTClear =
-		tpm_nv_data_st[i].bReadSTClear;
-	    tpm_nv_index_entries->tpm_nvindex_entry[i].pubInfo.bWriteSTClear =
-		tpm_nv_data_st[i].bWriteSTClear;
+	for (j = 0 ; tpm_nv_data_st[j].nvIndex != TPM_NV_INDEX_LOCK ; j++) {
+	    if (tpm_nv_index_entries->tpm_nvindex_entry[i].pubInfo.nvIndex ==
+		tpm_nv_data_st[j].nvIndex) {
+		printf("  TPM_NVIndexEntries_SetVolatile: bReadSTClear %u bWriteSTClear %u\n",
+		       tpm_nv_data_st[j].bReadSTClear, tpm_nv_data_st[j].bWriteSTClear);
+		tpm_nv_index_entries->tpm_nvindex_entry[i].pubInfo.bReadSTClear =
+		    tpm_nv_data_st[j].bReadSTClear;
+		tpm_nv_index_entries->tpm_nvindex_entry[i].pubInfo.bWriteSTClear =
+		    tpm_nv_data_st[j].bWriteSTClear;
+		break;
+	    }
 	}
     }
     return rc;
